@@ -138,6 +138,7 @@ class Ref:
         self.wild = True          # after Shm.Reset every head points at slot 0: not a state the property speaks about
         self.off_premise = False  # an operation outside the property's premises was issued; only the correspondence is judged from here on
         self.battery, self.buckets = [], []
+        self.watching = False     # no (BUCKETS, ..) yet: the driver prints no chain (the docker scenarios set their buckets after the first load)
         self._hm = None
 
     def holders(self, q):
@@ -216,7 +217,7 @@ class Ref:
         elif k == BATTERY:
             self.battery = [pad(i) for i in o[1]]
         elif k == BUCKETS:
-            self.buckets = list(o[1])
+            self.buckets = list(o[1]); self.watching = True
         elif k == ATTACH_HDR:
             return (0, 0) if (o[1], o[2]) == self.hdr else (3, 4) if o[1] != self.hdr[0] else (3, 5)
         return (0, 0)
@@ -313,6 +314,8 @@ def judge(ops, line, maxu, hdr):
             return (n, "ids", "after %s Userid[%d] = %r, expected %r" % (desc, r.slots[bad[0]], ids[bad[0]], want_ids[bad[0]]))
         if (number, loaded) != (r.number, r.loaded):
             return (n, "number", "after %s Number/Loaded = %d/%d, expected %d/%d" % (desc, number, loaded, r.number, r.loaded))
+        if not r.watching:
+            continue
         seen = {}
         for h, (slots, end) in sorted(chains.items()):
             if end != -1:
@@ -342,13 +345,22 @@ def judge(ops, line, maxu, hdr):
 
 
 def main():
+    if any("replay" in a for a in sys.argv[1:]):     # a replay of a production-configuration history ("11|..") is passed on to this driver by the default one
+        vf.build_impl(tags="verif docker", name="implrun_docker")
     c = vf.Check("C04")
+    import time
+    t00 = time.time()
+
+    def lap(what):
+        if os.environ.get("VERIF_C04_TIMING"):
+            sys.stderr.write("[C04 %6.1fs] %s\n" % (time.time() - t00, what))
     rng = c.rng
     thorough = c.tier == "thorough"
     c.prove()
     model_ok = c.model_ok()
     impl = vf.build_impl()
     model = vf.build_model("C04") if model_ok else None
+    lap("proofs, drivers, model built")
     vf.ipc_cleanup()
 
     def both(lines, label, shown=None):
@@ -684,6 +696,137 @@ def main():
     for i in range(n_hist):
         cases.append(gen_history(rng.randrange(5, 61), ["mixed", "mixed", "full", "short", "mixed"][i % 5], p2=[0.1, 0.0, 0.5, 0.15, 0.9, 0.1, 0.3][i % 7], pd=[0.0, 0.6, 0.0, 0.3][i % 4]))
 
+    # ---------------------------------------------------------------- the production configuration: -tags docker, MAX_USERS = 2 000 000 > PRE_ALLOCATED_USERS = 1000
+    # The loader files at most PRE_ALLOCATED_USERS records without a valid id (free slots); every record WITH a valid id must be stored and indexed however many
+    # free records precede it, at any slot number (also above the 2^16 buckets), on a cold load and on a reload alike.
+    impl_d = vf.build_impl(tags="verif docker", name="implrun_docker")
+    kd = vf.run_impl(impl_d, "C04", ["3"], deadline_ms=60000)[0].split()
+    if model:
+        vf.correspond(c, "constants of the -tags docker build (MAX_USERS, 1<<HASH_BITS, USER_ID_SZ, SHM_VERSION, SHM_RAW_SZ, PRE_ALLOCATED_USERS)", ["13 (3 on the docker build)"], [" ".join(kd)], vf.run_model(model, ["13"]))
+    maxu_d, hdr_d = int(kd[1]), (int(kd[4]), int(kd[5]))
+    if int(kd[6]) != PREALLOC or int(kd[2]) != hashn or maxu_d <= PREALLOC + 65536:
+        c.broken.append({"kind": "harness", "where": "checks/C04.py docker constants", "theorem": "the docker build has MAX_USERS > 2^16 + PRE_ALLOCATED_USERS, the same hash and cap", "log": " ".join(kd)})
+    c.count(1, "constants")
+    dA, dB, dL = b"Alice01", b"bob2", b"LastUser9999"
+    dfam = (fams[0][:3] if fams else []) + [b"Bob2", b"a1", b"Zz"]
+
+    def dref():
+        r = Ref(maxu_d); r.hdr = hdr_d
+        return r
+
+    def dstart(n, users, slots, ids, loader=(LOAD,)):
+        qs = [b"", b"nobody", over(LEFT[0], b"")]
+        for i in ids:
+            i = cpre(pad(i))
+            qs += [i, i.upper(), i.lower(), i.swapcase(), i[:-1], (i + b"x")[:IDLEN_MAX], over(LEFT[0], i), over(LEFT[2], i.swapcase())]
+        bks = sorted({pyhash(q, bits) for q in ids + [b""]})
+        # the watched buckets and the battery are set AFTER the first load: on the zeroed segment every head is the self-loop 0 -> 0, and walking it MAX_USERS = 2 000 000
+        # steps per bucket and per query after every step costs the extracted model minutes (the zeroed / reset segment is the default build's load matrix)
+        return [(SLOTS, sorted(set(slots))), (WSPARSE, n, dict(users)), loader, (BUCKETS, bks), (BATTERY, sorted(set(pad(q) for q in qs)))]
+
+    def dagreeing(ops, n):
+        r = dref()
+        for o in ops:
+            r.apply(o)
+        return (WSPARSE, n, {s_: cpre(v) for s_, v in r.table.d.items() if s_ < n and cpre(v)})
+
+    dcases = []
+    dids = [b"SYSOP", b"guest", dA, dB, dL, b"newbie", b"late1", b"zed", b"penult"] + dfam
+    # (1) the site with deleted accounts: 5000 records, live users before and far behind the 1000th free record; registration, removal, re-adding, reload by the
+    #     other process, a third process attaching, then a cold load of a differently laid out file over the dirty segment
+    for aname, act in actors[:2] if not thorough else actors:
+        other = (lambda o: second(o, 1)) if aname == "creator" else (lambda o: o)
+        users = {0: b"SYSOP", 1: b"guest", 700: dfam[0], 1500: over(LEFT[0], dA), 1501: dB, 1502: dfam[1], 4999: dL}
+        ops = dstart(5000, users, [0, 1, 2, 700, 999, 1000, 1001, 1002, 1003, 1200, 1500, 1501, 1502, 4000, 4998, 4999], dids, act((LOAD,)))
+        ops += [(SEARCH, dA.swapcase()), (DOSEARCH, dL.upper()), (DOSEARCH, b""), act((SET, 3, b"newbie")), (REMOVE, 1500), (SEARCH, dA), other((ADD, 1500, dfam[2])), (GETID, 1502)]
+        ops += [dagreeing(ops, 5000), other((LOAD,)), (ATTACH,), (SEARCH, dB.upper()), (UNLOAD,), (WSPARSE, 5000, {0: b"SYSOP", 1200: dA, 4000: dB, 4999: over(LEFT[1], dL)}), act((LOAD,)), (ATTACH,), (DOSEARCH, dfam[2])]
+        dcases.append(("5000 records, users at 0, 1, 700 and behind more than 1000 free records at 1500, 1501, 1502, 4999; first load by the %s" % aname, ops))
+    # (2) exactly at the cap: k free records, a user, more free records, users; the (PRE_ALLOCATED_USERS+1)-th free record is the first one left alone
+    for kfree in (PREALLOC - 1, PREALLOC, PREALLOC + 1):
+        users = {kfree: dA, kfree + 5: dB, kfree + 99: dL}
+        ops = dstart(kfree + 100, users, [0, PREALLOC - 2, PREALLOC - 1, PREALLOC, PREALLOC + 1, PREALLOC + 2, PREALLOC + 3, PREALLOC + 4, kfree + 5, kfree + 6, kfree + 99], dids)
+        ops += [(DOSEARCH, b""), (SET, PREALLOC + 4, b"late1"), (SEARCH, b"LATE1"), (REMOVE, kfree)]
+        ops += [dagreeing(ops, kfree + 100), second((LOAD,), 0), (SEARCH, dB), (REMOVE, kfree), (ADD, kfree, dA.upper()), (ATTACH,)]
+        dcases.append(("%d free records ahead of the first user (cap %d)" % (kfree, PREALLOC), ops))
+    # (3) slots above the number of buckets and at the end of the table
+    for aname, act in actors[:1] if not thorough else actors[:2]:
+        nrec = 70000
+        users = {0: b"SYSOP", 65535: dA, 65536: dB, 65537: dfam[0], 69998: dfam[1], 69999: dL}
+        ops = dstart(nrec, users, [0, 65535, 65536, 65537, 69998, 69999, 131072, maxu_d - 2, maxu_d - 1], dids, act((LOAD,)))
+        ops += [(SEARCH, dB.upper()), (DOSEARCH, dfam[1].swapcase()), (SET, maxu_d, b"zed"), (SET, 131073, dfam[2]), (SET, maxu_d + 1, b"nope"), (GETID, maxu_d), (GETID, maxu_d + 1),
+                (ADD, maxu_d - 2, b"penult"), (REMOVE, 65536), (SEARCH, dB), act((SET, 65537, over(LEFT[2], dB)))]
+        ops += [dagreeing(ops, nrec), second((LOAD,), 1), (ATTACH,), (REMOVE, maxu_d - 1), (SEARCH, b"ZED")]
+        dcases.append(("70000 records, users at slots 65535..65537, 69998, 69999; the last slots of the table; first load by the %s" % aname, ops))
+    n_dfixed = len(dcases)
+
+    def gen_dhistory(nops):
+        nrec = rng.choice([PREALLOC + 3, 2500, 5000, 70000])
+        U = sorted({0, 1, rng.randrange(2, PREALLOC - 1), PREALLOC, PREALLOC + 1, rng.randrange(PREALLOC + 2, nrec), rng.randrange(PREALLOC + 2, nrec), nrec - 1, nrec, rng.randrange(nrec, maxu_d), maxu_d - 1})
+        idp = [b"SYSOP", b"guest", dA, dB, dL, b"newbie", b"late1", b"zed"] + dfam
+        by = lambda o: second(o) if o[0] in BY2_OPS and rng.random() < 0.3 else o
+
+        def layout():
+            sl = rng.sample([u for u in U if u < nrec], rng.randrange(2, 6))
+            return {s_: dirt(i, 0.3) for s_, i in zip(sl, rng.sample(idp, len(sl)))}
+        ops = dstart(nrec, layout(), U, idp, by((LOAD,)))
+        r = dref()
+        for o in ops:
+            r.apply(o)
+        while len(ops) < nops + 5:
+            x = rng.random()
+            free = [i for i in idp if not r.holders(i)] or idp
+            if x < 0.3:
+                o = (SET, rng.choice(U) + 1, dirt(rng.choice(free), 0.3))
+            elif x < 0.45:
+                o = (REMOVE, rng.choice(U))
+            elif x < 0.55:
+                fs = [u for u in U if u not in r.indexed]
+                if not fs:
+                    continue
+                o = (ADD, rng.choice(fs), rng.choice(free))
+            elif x < 0.7:
+                q = rng.choice(idp)
+                o = (rng.choice([SEARCH, DOSEARCH]), dirt(rng.choice([q, q.upper(), q.swapcase(), b""]), 0.3))
+                if not cpre(pad(o[1])):
+                    o = (DOSEARCH, b"")
+            elif x < 0.85:
+                for o in ((WSPARSE, nrec, {s_: cpre(v) for s_, v in r.table.d.items() if s_ < nrec and cpre(v)}), by((LOAD,))):
+                    r.apply(o); ops.append(o)
+                continue
+            elif x < 0.93:
+                for o in ((UNLOAD,), (WSPARSE, nrec, layout()), by((LOAD,))):
+                    r.apply(o); ops.append(o)
+                continue
+            else:
+                o = (ATTACH,)
+            o = by(o)
+            r.apply(o); ops.append(o)
+        return ops
+    for i in range(40 if thorough else 3):
+        dcases.append(("generated", gen_dhistory(rng.randrange(8, 30))))
+    for name, ops in dcases:
+        r = dref()
+        for o in ops:
+            r.apply(o)
+        if r.off_premise:
+            c.broken.append({"kind": "harness", "where": "checks/C04.py docker scenarios", "theorem": "the docker scenarios stay inside the property's premises", "log": name})
+    dlines = [case_line(ops, "11") for _, ops in dcases]
+
+    def dshow(o):
+        if o[0] == BY2:
+            return "(%d, %d, %s)" % (o[0], o[1], dshow(o[2]))
+        if o[0] in (BATTERY, BUCKETS, SLOTS):
+            return "%d <%d>" % (o[0], len(o[1]))
+        if o[0] == WSPARSE:
+            return "(24, %d records, %s)" % (o[1], {k_: showid(v) for k_, v in sorted(o[2].items())})
+        return str(tuple(showid(x) if isinstance(x, bytes) else x for x in o))
+    dshown = ["11|" + " | ".join(dshow(o) for o in ops) for _, ops in dcases]
+    lap("cases generated")
+    import threading
+    dio = []
+    dthread = threading.Thread(target=lambda: dio.extend(vf.run_impl(impl_d, "C04", dlines, deadline_ms=120000, max_hangs=2)))
+    dthread.start()
+
     lines = [case_line(ops) for ops in cases]
     shown = ["1|" + " | ".join(str(tuple(cpre(x) if isinstance(x, bytes) else x for x in o)) if o[0] not in (WRITE, BATTERY, BUCKETS) else "%d <%d ids>" % (o[0], len(o[1])) for o in ops) for ops in cases]
     label = "histories (returns, chains of the pool's buckets, all stored ids, lookup battery, operations executed by a second process)"
@@ -731,6 +874,7 @@ def main():
         keep = [i for i in range(len(cases)) if io[i] != "7"]
         vf.correspond(c, label, [shown[i] for i in keep], [io[i] for i in keep], vf.run_model(model, [lines[i] for i in keep]))
 
+    lap("default histories run and compared")
     found = set()
     for ci, ops in enumerate(cases):
         r = Ref(maxu); r.hdr = hdr
@@ -770,6 +914,51 @@ def main():
         if key == "hang":
             rep["got"] = "status 2 at the last step (the process executing it was killed at the deadline); replay: build/implrun C04 < the case line"
         c.violation(key, text + "  [history: %s]" % rep["history"][2:], rep)
+    # ---------------------------------------------------------------- the production configuration: verdicts
+    lap("default verdicts")
+    dthread.join()
+    lap("docker histories run")
+    vf.ipc_cleanup()
+    if model:
+        keep = [i for i in range(len(dcases)) if dio[i] != "7"]
+        vf.correspond(c, "histories on the -tags docker build (MAX_USERS %d): sparse .PASSWDS with more than %d free records ahead of users, slots above 2^16 and at the end of the table" % (maxu_d, PREALLOC),
+                      [dshown[i] for i in keep], [dio[i] for i in keep], vf.run_model(model, [dlines[i] for i in keep]))
+    for di, ((name, ops), line) in enumerate(zip(dcases, dio)):
+        r = dref()
+        for o in ops:
+            r.apply(o)
+            if o[0] not in (BATTERY, BUCKETS, SLOTS):
+                c.nontrivial(("docker", dshow(o), tuple(sorted(r.indexed))[-40:], r.table.key()))
+        c.count(len(ops) - 3, "production-configuration (docker build) steps")
+        c.count((len(ops) - 3) * max(len(o[1]) for o in ops if o[0] == BATTERY), "lookups after a step")
+        c.count(sum(1 for o in ops if o[0] == BY2), "operations executed by a second, attached process")
+        if line == "7":
+            continue
+        bad = judge(ops, line, maxu_d, hdr_d) if line.split()[:1] != ["2"] else (len(ops) - 1, "hang", "the history does not return within 120 s on the docker build")
+        if bad is None or bad[1] in found:
+            continue
+        found.add(bad[1])
+        step, key, text = bad
+        cur = ops[:step + 1]
+        j = 5
+        while j < len(cur) - 1 and key != "hang":
+            trial = cur[:j] + cur[j + 1:]
+            b2 = judge(trial, vf.run_impl(impl_d, "C04", [case_line(trial, "11")], deadline_ms=120000)[0], maxu_d, hdr_d)
+            if b2 is not None and b2[1] == key and b2[0] == len(trial) - 1:
+                cur, text = trial, b2[2]
+            else:
+                j += 1
+        rp = {"cases": [case_line(cur, "11")], "history": [dshow(o) for o in cur], "scenario": name, "configuration": "-tags docker (MAX_USERS %d, PRE_ALLOCATED_USERS %d)" % (maxu_d, PREALLOC),
+              "how": "the case line starts with 11: build/implrun C04 passes it to build/implrun_docker (go build -tags 'verif docker'); ./check C04 --replay builds both"}
+        if model:
+            ml = vf.run_model(model, [case_line(cur, "11")])[0]
+            if ml != vf.run_impl(impl_d, "C04", [case_line(cur, "11")], deadline_ms=120000)[0]:
+                rp["expected"] = ml
+        c.violation(key, "docker build (MAX_USERS %d): " % maxu_d + text + "  [history: %s]" % rp["history"][1:], rp)
+    lap("docker histories compared and judged")
+    c.cov["docker_build"] = {"MAX_USERS": maxu_d, "scenarios": [n_ for n_, _ in dcases[:n_dfixed]], "generated_histories": len(dcases) - n_dfixed}
+    c.sample({"docker_history": dshown[0][:1500]})
+
     # ---------------------------------------------------------------- reload through bbs.ReloadUHash (sysop only): implementation only, differential
     # the same history three ways: reload asked by SYSOP, by a plain user, and issued directly with cache.LoadUHash
     tbl = [b"SYSOP", b"alice"] + (fams[0][:4] if fams else [b"Bob2"]) + [b""] * maxu
@@ -826,6 +1015,7 @@ def main():
                                  "by a second process started with NewSHM(isCreate=true)} x {empty, short, full, colliding .PASSWDS}, each followed by lookups from a third process, set / remove / add by both "
                                  "processes and a reload by the other process" % len(matrix)]
     vf.ipc_cleanup()
+    lap("done")
     c.finish(rule="one case = a history on a zeroed segment: write .PASSWDS, LoadUHash, then up to 60 of SetUserID / RemoveFromUHash / AddToUHash (only on a slot that is on no chain) / SearchUserRaw / "
                   "reload from an agreeing .PASSWDS / cold load over the dirty or reset segment / attach by a second process; every operation, the first load included, is executed either by the process "
                   "that created the segment or (0 to 90 percent of the operations of a history) by a second process that attached to the existing segment with or without the create flag (IsNew false) "
